@@ -121,6 +121,9 @@ def run():
     if not ctx.quick():
         ctx.l1("ReqReply", "ReqReply_t.cfg", workers=8, heap="6g", timeout=1500)     # 2 callers + ping + ping deadline / close
         ctx.l1("ReqReply", "ReqReply_t3.cfg", workers=8, heap="8g", timeout=2400)    # 3 callers + ping (about 5M states)
+        # unbounded depth: inductive invariant (Apalache) of the same actions over an unordered, never-consumed downlink - runs of any
+        # length, any number of duplicate/spurious responses, any id values (3 processes)
+        ctx.inductive("ReqReplyInd", timeout=1500)
     scs = []
 
     def add(fam, n, scripts, modes, limit=None, core=0, **kw):
